@@ -649,7 +649,7 @@ func TestVerifC21(t *testing.T) {
 	r.Expect("refusal-expected", "plan-with-transfers", "cleanup-deleted-a-fragment", "fn:fragSources")
 
 	viewNames := []string{viewStandard, viewStandard + "_2019", viewStandard + "_201901", viewBSIGroupPrefix + "x"}
-	total := r.N(480, 60000)
+	total := r.N(480, 19200)
 	r.Cases("resize", total, func(i int, id string, rng *vk.Rand) {
 		n := 1 + rng.Intn(6)
 		replicas := 1 + rng.Intn(4)
